@@ -78,17 +78,18 @@ theorem imgPaths_keys (s : St) (n : Nat) (weightOf : Nat → List Rat) :
 /-- the blank state `restore` starts from -/
 def restoreBlank (s : St) (n workers tsteps : Nat) (occ : List (List Int)) (ensEng : List (List Nat)) : St :=
   { blank n workers tsteps s.cstep s.trajNum s.seed occ ensEng true (persist s).locked with
-    locked0Ord := (persist s).lockedOrd.map some }
+    locked0Ord := (persist s).lockedOrd.map some,
+    spawned := (persist s).spawnedRec.getD ((persist s).cstep + (persist s).locked.length) }
 
 theorem restore_eq (s : St) (n workers tsteps : Nat) (occ : List (List Int)) (ensEng : List (List Nat))
     (weightOf : Nat → List Rat) :
     restore (persist s) n workers tsteps occ ensEng weightOf
       = loadPaths (restoreBlank s n workers tsteps occ ensEng) (imgPaths s n weightOf) := rfl
 
-/-! `load_paths` never reads the recorded ordinals -/
+/-! `load_paths` never reads the recorded ordinals nor the spawn counter -/
 
-theorem unlock_ord {s s' : St} {e : Nat} (X : List (Option Nat)) (h : unlock s e = .ok s') :
-    unlock { s with locked0Ord := X } e = .ok { s' with locked0Ord := X } := by
+theorem unlock_ord {s s' : St} {e : Nat} (X : List (Option Nat)) (k : Nat) (h : unlock s e = .ok s') :
+    unlock { s with locked0Ord := X, spawned := k } e = .ok { s' with locked0Ord := X, spawned := k } := by
   unfold unlock at h ⊢
   simp only []
   split at h
@@ -100,11 +101,12 @@ theorem unlock_ord {s s' : St} {e : Nat} (X : List (Option Nat)) (h : unlock s e
   · exact absurd h (by simp)
 
 theorem addTraj_ord {s s' : St} {ens : Int} {pn : Nat} {valid : List Rat} (X : List (Option Nat))
-    (h : addTraj s ens pn valid = .ok s') :
-    addTraj { s with locked0Ord := X } ens pn valid = .ok { s' with locked0Ord := X } := by
+    (k : Nat) (h : addTraj s ens pn valid = .ok s') :
+    addTraj { s with locked0Ord := X, spawned := k } ens pn valid
+      = .ok { s' with locked0Ord := X, spawned := k } := by
   unfold addTraj at h ⊢
   simp only [] at h ⊢
-  have hp : padValid { s with locked0Ord := X } ens valid = padValid s ens valid := rfl
+  have hp : padValid { s with locked0Ord := X, spawned := k } ens valid = padValid s ens valid := rfl
   rw [hp]
   split at h
   · exact absurd h (by simp)
@@ -121,23 +123,26 @@ theorem addTraj_ord {s s' : St} {ens : Int} {pn : Nat} {valid : List Rat} (X : L
   · exact absurd h (by simp)
   rename_i hge
   rw [if_neg hge]
-  exact unlock_ord X h
+  exact unlock_ord X k h
 
 theorem loadOne_ord {s s' : St} {ens : Int} {pn : Nat} {valid fr : List Rat} (X : List (Option Nat))
-    (h : loadOne s ens pn valid fr = .ok s') :
-    loadOne { s with locked0Ord := X } ens pn valid fr = .ok { s' with locked0Ord := X } := by
+    (k : Nat) (h : loadOne s ens pn valid fr = .ok s') :
+    loadOne { s with locked0Ord := X, spawned := k } ens pn valid fr
+      = .ok { s' with locked0Ord := X, spawned := k } := by
   unfold loadOne at h ⊢
   split at h
   · exact absurd h (by simp)
   rename_i s1 hadd
-  rw [addTraj_ord X hadd]
+  rw [addTraj_ord X k hadd]
   simp only [Except.ok.injEq] at h ⊢
   subst h
   rfl
 
-theorem plus_ord (X : List (Option Nat)) : ∀ (l : List (Nat × List Rat × List Rat)) (s s' : St) (i : Nat),
+theorem plus_ord (X : List (Option Nat)) (k : Nat) :
+    ∀ (l : List (Nat × List Rat × List Rat)) (s s' : St) (i : Nat),
     loadPaths.plus s i l = .ok s' →
-    loadPaths.plus { s with locked0Ord := X } i l = .ok { s' with locked0Ord := X } := by
+    loadPaths.plus { s with locked0Ord := X, spawned := k } i l
+      = .ok { s' with locked0Ord := X, spawned := k } := by
   intro l
   induction l with
   | nil =>
@@ -151,12 +156,13 @@ theorem plus_ord (X : List (Option Nat)) : ∀ (l : List (Nat × List Rat × Lis
     split at h
     · exact absurd h (by simp)
     rename_i s1 h1
-    rw [loadOne_ord X h1]
+    rw [loadOne_ord X k h1]
     exact ih s1 s' (i + 1) h
 
 theorem loadPaths_ord {s s' : St} {paths : List (Nat × List Rat × List Rat)} (X : List (Option Nat))
-    (h : loadPaths s paths = .ok s') :
-    loadPaths { s with locked0Ord := X } paths = .ok { s' with locked0Ord := X } := by
+    (k : Nat) (h : loadPaths s paths = .ok s') :
+    loadPaths { s with locked0Ord := X, spawned := k } paths
+      = .ok { s' with locked0Ord := X, spawned := k } := by
   unfold loadPaths at h ⊢
   split at h
   · exact absurd h (by simp)
@@ -164,8 +170,8 @@ theorem loadPaths_ord {s s' : St} {paths : List (Nat × List Rat × List Rat)} (
   split at h
   · exact absurd h (by simp)
   rename_i s1 hplus
-  rw [plus_ord X rest s s1 0 hplus]
-  exact loadOne_ord X h
+  rw [plus_ord X k rest s s1 0 hplus]
+  exact loadOne_ord X k h
 
 /-- **`restore (persist s)`**: the restored table has exactly the live paths of `s` as keys (in
     `load_paths` order), each with the vector it had in `s` (zeros if it had none); the data-file
@@ -313,14 +319,15 @@ theorem restore_init {y1 : Sys} {s2 : St} {workers tsteps : Nat} {occ : List (Li
   constructor
   · rw [restore_eq] at h
     have hl0 : (persist y1.s).locked = [] := by simp [persist, hlk]
-    have h' := loadPaths_ord [] h
-    have hb : ({ restoreBlank y1.s y1.s.n workers tsteps occ ensEng with locked0Ord := [] } : St)
+    have h' := loadPaths_ord [] (y1.s.cstep + 0) h
+    have hb : ({ restoreBlank y1.s y1.s.n workers tsteps occ ensEng with
+                  locked0Ord := [], spawned := y1.s.cstep + 0 } : St)
         = blank y1.s.n workers tsteps y1.s.cstep y1.s.trajNum y1.s.seed occ ensEng true [] := by
       unfold restoreBlank
       rw [hl0]
       rfl
     rw [hb] at h'
-    have hI : Init ⟨{ s2 with locked0Ord := [] }, []⟩ := by
+    have hI : Init ⟨{ s2 with locked0Ord := [], spawned := y1.s.cstep + 0 }, []⟩ := by
       refine init_of_loadPaths y1.s.n workers tsteps y1.s.cstep y1.s.trajNum y1.s.seed occ ensEng true
         (imgPaths y1.s y1.s.n weightOf) _ hc.n2 ?_ ?_ ?_ h'
       · unfold imgPaths
